@@ -302,30 +302,91 @@ func c14Max(p *core.Program, r *core.Report) {
 	if mf.Decl.Type.Params.NumFields() == 1 {
 		thatObj = minfo.Defs[mf.Decl.Type.Params.List[0].Names[0]]
 	}
-	thisVal, thatVal := "", ""
-	ast.Inspect(mf.Decl.Body, func(n ast.Node) bool {
-		as, ok := n.(*ast.AssignStmt)
-		if !ok || len(as.Lhs) != 1 || len(as.Rhs) != 1 || as.Tok != token.DEFINE {
+	// locals derived from the receiver's words and from the argument's words (through index
+	// expressions, range variables over M, and other derived locals); the compared pair is the one
+	// this-derived and one that-derived local that meet in a comparison
+	thisD, thatD := map[types.Object]bool{}, map[types.Object]bool{}
+	mentions := func(e ast.Expr) (bool, bool) {
+		t1, t2 := false, false
+		ast.Inspect(e, func(m ast.Node) bool {
+			switch v := m.(type) {
+			case *ast.SelectorExpr:
+				if v.Sel.Name == "M" {
+					if id, ok := ast.Unparen(v.X).(*ast.Ident); ok {
+						if id.Name == mrn {
+							t1 = true
+						} else if thatObj != nil && minfo.ObjectOf(id) == thatObj {
+							t2 = true
+						}
+					}
+				}
+			case *ast.Ident:
+				if o := minfo.ObjectOf(v); o != nil {
+					if thisD[o] {
+						t1 = true
+					}
+					if thatD[o] {
+						t2 = true
+					}
+				}
+			}
 			return true
-		}
-		lid, ok := as.Lhs[0].(*ast.Ident)
-		if !ok {
-			return true
-		}
-		ast.Inspect(as.Rhs[0], func(m ast.Node) bool {
-			if ix, ok := m.(*ast.IndexExpr); ok {
-				if sel, ok := ast.Unparen(ix.X).(*ast.SelectorExpr); ok && sel.Sel.Name == "M" {
-					if id, ok := ast.Unparen(sel.X).(*ast.Ident); ok {
-						if id.Name == mrn && thisVal == "" {
-							thisVal = lid.Name
-						} else if thatObj != nil && minfo.ObjectOf(id) == thatObj && thatVal == "" {
-							thatVal = lid.Name
+		})
+		return t1, t2
+	}
+	for round := 0; round < 4; round++ {
+		ast.Inspect(mf.Decl.Body, func(n ast.Node) bool {
+			switch v := n.(type) {
+			case *ast.AssignStmt:
+				if v.Tok == token.DEFINE && len(v.Lhs) == len(v.Rhs) {
+					for i, l := range v.Lhs {
+						if lid, ok := l.(*ast.Ident); ok {
+							a, b := mentions(v.Rhs[i])
+							if a && !b {
+								thisD[minfo.ObjectOf(lid)] = true
+							}
+							if b && !a {
+								thatD[minfo.ObjectOf(lid)] = true
+							}
+						}
+					}
+				}
+			case *ast.RangeStmt:
+				if v.Value != nil {
+					if vid, ok := v.Value.(*ast.Ident); ok {
+						a, b := mentions(v.X)
+						if a && !b {
+							thisD[minfo.ObjectOf(vid)] = true
+						}
+						if b && !a {
+							thatD[minfo.ObjectOf(vid)] = true
 						}
 					}
 				}
 			}
 			return true
 		})
+	}
+	thisVal, thatVal := "", ""
+	ast.Inspect(mf.Decl.Body, func(n ast.Node) bool {
+		be, ok := n.(*ast.BinaryExpr)
+		if !ok {
+			return true
+		}
+		switch be.Op {
+		case token.LSS, token.LEQ, token.GTR, token.GEQ:
+			x, ok1 := ast.Unparen(be.X).(*ast.Ident)
+			y, ok2 := ast.Unparen(be.Y).(*ast.Ident)
+			if ok1 && ok2 {
+				xo, yo := minfo.ObjectOf(x), minfo.ObjectOf(y)
+				switch {
+				case thisD[xo] && thatD[yo]:
+					thisVal, thatVal = x.Name, y.Name
+				case thatD[xo] && thisD[yo]:
+					thisVal, thatVal = y.Name, x.Name
+				}
+			}
+		}
 		return true
 	})
 	norm := func(e ast.Expr) string { return stripSpaces(types.ExprString(e)) }
@@ -520,7 +581,7 @@ func c14Geometry(p *core.Program, r *core.Report) {
 							probs = append(probs, "shift amount "+stripSpaces(types.ExprString(v.Y))+" is not a linear expression of the register position")
 						case name != "Merge" && !f.is(want):
 							probs = append(probs, "bit offset "+stripSpaces(types.ExprString(v.Y))+" is not REGISTER_SIZE*(position mod LOG2_BITS_PER_WORD)")
-						case name == "Merge" && !f.singleVarTimes(rs):
+						case name == "Merge" && !f.singleVarTimes(rs) && !f.singleVarTimes(1):
 							probs = append(probs, "merge does not shift by REGISTER_SIZE*j")
 						}
 					}
@@ -557,14 +618,40 @@ func c14Geometry(p *core.Program, r *core.Report) {
 			probs = append(probs, "the word array is not indexed")
 		}
 		if name == "Merge" {
+			// the inner loop visits the shifts 0, R, 2R, ..., (L-1)R: either `j < L` with shift R*j, or a
+			// loop over the shift itself from 0 below R*L in steps of R
 			okLoop := false
 			ast.Inspect(fi.Decl.Body, func(n ast.Node) bool {
-				if loop, ok := n.(*ast.ForStmt); ok && loop.Cond != nil {
-					if be, ok := loop.Cond.(*ast.BinaryExpr); ok && be.Op == token.LSS {
-						if bv, ok := constIntOf(info, be.Y); ok && bv == lw {
-							okLoop = true
-						}
+				loop, ok := n.(*ast.ForStmt)
+				if !ok || loop.Cond == nil || loop.Init == nil || loop.Post == nil {
+					return true
+				}
+				be, ok := loop.Cond.(*ast.BinaryExpr)
+				init, ok2 := loop.Init.(*ast.AssignStmt)
+				if !ok || !ok2 || be.Op != token.LSS || len(init.Rhs) != 1 {
+					return true
+				}
+				bv, okb := constIntOf(info, be.Y)
+				iv0, ok0 := constIntOf(info, stripConvs(info, init.Rhs[0]))
+				if !okb || !ok0 || iv0 != 0 {
+					return true
+				}
+				step := int64(0)
+				switch post := loop.Post.(type) {
+				case *ast.IncDecStmt:
+					if post.Tok == token.INC {
+						step = 1
 					}
+				case *ast.AssignStmt:
+					if post.Tok == token.ADD_ASSIGN && len(post.Rhs) == 1 {
+						step, _ = constIntOf(info, post.Rhs[0])
+					}
+				}
+				switch {
+				case step == 1 && bv == lw:
+					okLoop = true // j < L ; the shift amount is checked as R*j below
+				case step == rs && bv == rs*lw:
+					okLoop = true // the loop variable is the shift itself
 				}
 				return true
 			})
@@ -804,7 +891,7 @@ func c14Index(p *core.Program, r *core.Report) {
 				}
 				// argument contains (hash << log2m) and the guard bit 1 << (log2m - 1), or-ed
 				hasShift, hasGuard, hasOr := false, false, false
-				ast.Inspect(v.Args[0], func(m ast.Node) bool {
+				ast.Inspect(expandLocals(info, fi.Decl.Body, v.Args[0]), func(m ast.Node) bool {
 					be, ok := m.(*ast.BinaryExpr)
 					if !ok {
 						return true
